@@ -112,4 +112,22 @@ spec_adler32(uint32_t adler, const uint8_t *buf, size_t n)
         }
         return (s2 << 16) | s1;
 }
+/* The same definition with the reduction written as a conditional subtraction; exact whenever both
+ * halves of the running value are < 65521 (then s1 + byte < 2*65521 and s2 + s1 < 2*65521).  Cheaper for a
+ * SAT solver than 2n dividers; its equality with spec_adler32 is decided per step (H_ADLER_CS, all s1, s2 <
+ * 65521, all bytes) and extends to every n by induction (both keep the halves < 65521). */
+static inline uint32_t
+spec_adler32_cs(uint32_t adler, const uint8_t *buf, size_t n)
+{
+        uint32_t s1 = adler & 0xffff, s2 = adler >> 16;
+        for (size_t i = 0; i < n; i++) {
+                s1 += buf[i];
+                if (s1 >= SPEC_ADLER_MOD)
+                        s1 -= SPEC_ADLER_MOD;
+                s2 += s1;
+                if (s2 >= SPEC_ADLER_MOD)
+                        s2 -= SPEC_ADLER_MOD;
+        }
+        return (s2 << 16) | s1;
+}
 #endif
